@@ -41,6 +41,25 @@ Section MainThm.
     unfold hub_after. apply (password_history sha256hex sha_nonempty).
   Qed.
 
+  (* the slave (running the same rules with its own admin hash) accepts what the hub sends it *)
+  Theorem slave_accepts_hub_header :
+    forall sops pw0 t8 t8' hdr,
+      issuedb mac decode "consumer" (Some "admin") (hub_slave_hash sha256hex pw0 sops) (issue_iat t8) hdr = true ->
+      - (8 * skew) <= t8' - t8 <= 8 * skew - 7 ->
+      parse_auth_header mac decode skew t8' hdr "consumer"
+        (fun u => if jeq_str u "admin" then Some (sha256hex (slave_password pw0 sops)) else None) true
+      = RGrant (Some (JStr "admin")).
+  Proof.
+    intros sops pw0 t8 t8' hdr Hi Ht.
+    rewrite (slave_hash_tracks sha256hex) in Hi.
+    apply (parse_complete mac decode skew "consumer" (Some "admin") (sha256hex (slave_password pw0 sops)) (issue_iat t8) hdr t8'
+                          _ true Hi).
+    - discriminate.
+    - reflexivity.
+    - apply sha_nonempty.
+    - now apply fresh_issued_now.
+  Qed.
+
   (* no Authorization header: admin exactly when the admin hash is the hash of the empty password, else nothing *)
   Theorem no_header :
     forall eh h now8,
